@@ -449,44 +449,22 @@ def run_inplace(ctx, bad):
 
 
 def run_duplicates(ctx, bad):
-    """a node listed twice in `nodes`: ValueError, or the answer for the node list with the repeat dropped"""
+    """a node listed twice in `nodes`: OUTSIDE the property (POLICY_X (d): `nodes` is a collection of distinct nodes) - observation only:
+    the call may return anything or raise; outcomes are counted, never judged"""
+    from harness.core import guarded
     from harness.props import C15 as M
 
     rng = ctx.rng
-    for _ in range(25 if ctx.tier == "quick" else 300):
+    for _ in range(6 if ctx.tier == "quick" else 40):
         nodes0, nb = M.gen_graph(rng, False)
         if not nodes0:
             continue
         dup = list(nodes0)
-        for _ in range(rng.randint(1, 2)):
-            dup.insert(rng.randrange(len(dup) + 1), rng.choice(nodes0))
-        fresh_dup = [int(str(v)) for v in dup]  # equal but distinct objects
-        params = (rng.choice(M.DAMPINGS), 1e-6, 100, rng.choice([1.0, 0.5]))
-        f = lambda v: nb[v]  # noqa: E731
-        got = _canon_all(M, fresh_dup, nb, f, ["ap", "br", "kc", "kk", "pr", "lv"], 1, params)
+        dup.insert(rng.randrange(len(dup) + 1), rng.choice(nodes0))
+        params = (rng.choice(M.DAMPINGS), 1e-6, 100, 1.0)
+        r = guarded(_canon_all, M, dup, nb, lambda v: nb[v], ["ap", "br", "kc", "kk", "pr", "lv"], 1, params, timeout=10)
         ctx.evaluations += 6
-        ctx.count("A2_duplicate_labels", "cases")
-        rep = {"kind": "duplicate", "nodes_as_passed": dup, "nodes": nodes0, "nb": {str(k): v for k, v in nb.items()},
-               "damping": list(params[0]), "tol": 1e-6, "max_iter": 100, "resolution": params[3]}
-        ref = {"ap": M.ref_cut_vertices(nodes0, nb), "br": M.ref_bridges(nodes0, nb), "kc": sorted(M.ref_core_numbers(nodes0, nb).items())}
-        ref["kk"] = sorted(v for v, c in ref["kc"] if c >= 1)
-        for name in ("ap", "br", "kc", "kk", "pr", "lv"):
-            g = got[name]
-            if isinstance(g, tuple) and g and g[0] == "exc":
-                if g[1] != "ValueError":
-                    bad.append((f"{name} with a node listed twice ({dup}): {g}", rep))
-                continue
-            v = None
-            if name in ref and g != ref[name]:
-                v = f"returned {g}, the graph on {sorted(nodes0)} gives {ref[name]}"
-            elif name == "pr":
-                sc = dict(g[0])
-                v = M.judge_pr(nodes0, nb, params[0], 1e-6, 100, {"solution": sc, "status": g[3], "objective": g[1], "iterations": g[2]})
-            elif name == "lv":
-                v = M.judge_lv(nodes0, nb, params[3], {"solution": g[0], "objective": g[1], "status": "OPTIMAL"})
-            if v:
-                bad.append((f"{name} with a node listed twice (nodes={dup}): {v}", rep))
-                break
+        ctx.count("observation_only", "node listed twice: " + ("returned" if r[0] == "ok" else r[0]))
 
 
 # ================================================================================================ X : float extremes
@@ -497,6 +475,14 @@ def run_extremes(ctx, bad):
     articulation_points, bridges, kcore_decomposition, kcore, pagerank, louvain = _mods()
     rng = ctx.rng
     nan, inf = float("nan"), float("inf")
+
+    def outside(x):
+        """POLICY_X (a)/(b): NaN, +-inf, or finite floats of overflow magnitude - observation only"""
+        return isinstance(x, float) and (x != x or abs(x) >= 1e300)
+
+    def observe(what, r):
+        ctx.count("observation_only", f"{what}: " + ("returned" if r[0] == "ok" else "raised" if r[0] == "exc" else r[0]))
+
     for _ in range(12 if ctx.tier == "quick" else 150):
         nodes, nb = M.gen_graph(rng, False)
         if len(nodes) < 2:
@@ -509,6 +495,9 @@ def run_extremes(ctx, bad):
             ctx.evaluations += 1
             ctx.count("X_float_extremes", "pagerank tol")
             rep = {**base, "fn": "pagerank", "args": f"tol={tol!r}, max_iter=30"}
+            if outside(tol) and tol != 1e308:  # a huge FINITE tol is an ordinary option corner and stays judged
+                observe("pagerank tol nan/inf", r)
+                continue
             if r[0] != "ok":
                 if not (r[0] == "exc" and r[1] in ("ValueError", "TypeError")):
                     bad.append((f"pagerank(tol={tol!r}): {r}", rep))
@@ -530,18 +519,16 @@ def run_extremes(ctx, bad):
             ctx.evaluations += 1
             ctx.count("X_float_extremes", "pagerank damping")
             rep = {**base, "fn": "pagerank", "args": f"damping={d!r}, tol=1e-9, max_iter=20"}
+            if outside(d) or not 0 <= d <= 1:  # the property quantifies over damping in (0,1); the closed ends stay judged
+                observe("pagerank damping nan/inf/outside [0,1]", r)
+                continue
             if r[0] != "ok":
                 if not (r[0] == "exc" and r[1] in ("ValueError", "TypeError")):
                     bad.append((f"pagerank(damping={d!r}): {r}", rep))
                 continue
             o = {"solution": dict(r[1].solution), "status": r[1].status.name, "objective": r[1].objective, "iterations": r[1].iterations}
-            if d == d and 0 <= d <= 1:
-                fr = Fraction(d)
-                v = M.judge_pr(nodes, nb, (fr.numerator, fr.denominator), 1e-9, 20, o)
-            else:
-                sc = o["solution"]
-                okk = set(sc) == set(nodes) and all(x == x and x >= 0 for x in sc.values()) and abs(math.fsum(sc.values()) - 1) <= 1e-9
-                v = None if okk else f"damping outside [0,1] is accepted and the scores {str(sc)[:90]} are not a probability vector (raise ValueError or obey the property)"
+            fr = Fraction(d)
+            v = M.judge_pr(nodes, nb, (fr.numerator, fr.denominator), 1e-9, 20, o)
             if v:
                 bad.append((f"pagerank(damping={d!r}): {v}", rep))
         # ---- pagerank: max_iter as float / bool / negative
@@ -566,6 +553,9 @@ def run_extremes(ctx, bad):
             ctx.evaluations += 1
             ctx.count("X_float_extremes", "louvain resolution")
             rep = {**base, "fn": "louvain", "args": f"resolution={res!r}", "resolution": res if res == res and abs(res) != inf else str(res)}
+            if outside(res):
+                observe("louvain resolution nan/inf/>=1e300", r)
+                continue
             if r[0] != "ok":
                 if not (r[0] == "exc" and r[1] in ("ValueError", "TypeError")):
                     bad.append((f"louvain(resolution={res!r}): {r}", rep))
@@ -575,10 +565,6 @@ def run_extremes(ctx, bad):
             flat = [v for c in comms for v in c]
             if sorted(flat) != sorted(nodes) or any(not c for c in comms):
                 bad.append((f"louvain(resolution={res!r}): {comms} is not a partition of the node set", rep))
-                continue
-            if res != res or abs(res) == inf:
-                if E and not (obj == obj and math.isfinite(obj)):
-                    bad.append((f"louvain(resolution={res!r}) is accepted and reports modularity {obj!r} (raise ValueError or report the value of the formula)", rep))
                 continue
             exp = M.ref_modularity(nodes, nb, res, comms) if E else Fraction(0)
             if abs(exp) > Fraction(17, 10) * 10**308:
@@ -598,6 +584,9 @@ def run_extremes(ctx, bad):
             ctx.evaluations += 1
             ctx.count("X_float_extremes", "kcore k")
             rep = {**base, "fn": "kcore", "args": f"k={k!r}"}
+            if isinstance(k, float) and (k != k or abs(k) == inf):
+                observe("kcore k nan/inf", r)
+                continue
             if r[0] != "ok":
                 if not (r[0] == "exc" and r[1] in ("ValueError", "TypeError")):
                     bad.append((f"kcore(k={k!r}): {r}", rep))
